@@ -15,7 +15,8 @@ REQUIRED_OBS = ["programs_compared", "tracer_events", "exceptions_agreed", "tabl
 RULE = (
     "generated straight-line programs: (a) bounded-exhaustive tables: every binary/aug-assign/compare operator x ordered pair of the ten "
     "operand kinds x 2 values, unary ops, subscript/slice/unpack/call-unpacking x kind (well- and ill-typed), (b) random nestings to depth "
-    "4-6 of every supported expression/assignment node with tracer calls T(tag, v) at operand positions; same source under CPython "
+    "4-6 of every supported expression/assignment node with tracer calls T(tag, v) at operand positions (incl. augmented assignment to elements of tuples, "
+    "strings, bytes, nested lists, dicts and an item-logging list subclass, and methods that mutate freshly built constant displays inside comprehensions); same source under CPython "
     "exec() and pyscript AstEval.parse()+eval() on a fresh global context; compared: exception type, ordered tracer log, canonicalised "
     "final globals. Non-trivial: >= 1 tracer event or an exception, and >= 2 node types; distinct by source hash."
 )
